@@ -253,6 +253,8 @@ func TestVerif_C16_commit(t *testing.T) {
 }
 
 func TestVerif_C16_commit_gates(t *testing.T) {
+	errKind := 0 // rotates the kind of the scripted reader error
+
 	ctx := context.Background()
 	r := vNewRand(vSeed() + 78)
 	n := vEnvInt("VERIF_N", 200)
@@ -287,7 +289,8 @@ func TestVerif_C16_commit_gates(t *testing.T) {
 				case 2:
 					return []cciptypes.SeqNum{11}, nil
 				case 3:
-					return nil, vErr
+					errKind++
+					return nil, vErrN(errKind)
 				}
 				return []cciptypes.SeqNum{10}, nil
 			}}
@@ -375,7 +378,7 @@ func TestVerif_C16_commit_gates(t *testing.T) {
 				case 1:
 					return &readerpkg.CurseInfo{CursedSourceChains: map[cciptypes.ChainSelector]bool{5: true}}, nil
 				case 2:
-					return nil, vErr
+					return nil, vErrNext()
 				}
 				return &readerpkg.CurseInfo{CursedSourceChains: map[cciptypes.ChainSelector]bool{}}, nil
 			}}
